@@ -121,7 +121,11 @@ func (pl *lStatePool) New() *lua.LState {
 	}
 
 	getArgs := func(ls *lua.LState) (evalCmd string, args []string) {
-		evalCmd = ls.GetGlobal("EVAL_CMD").String()
+		// The kind of the running script is kept in the Lua registry, which
+		// scripts cannot reach. The EVAL_CMD global is informational only: a
+		// script can assign to it.
+		evalCmd = ls.Get(lua.RegistryIndex).(*lua.LTable).
+			RawGetString(luaEvalCmdRegistryKey).String()
 
 		// Trying to work with unknown number of args.
 		// When we see empty arg we call it enough.
@@ -388,6 +392,10 @@ func ConvertToJSON(val lua.LValue) string {
 	return "Unsupported lua type: " + val.Type().String()
 }
 
+// luaEvalCmdRegistryKey is the registry slot holding the command word (eval,
+// evalro, evalna, ...) of the script that is currently running on a state.
+const luaEvalCmdRegistryKey = "tile38.eval_cmd"
+
 func luaSetRawGlobals(ls *lua.LState, tbl map[string]lua.LValue) {
 	gt := ls.Get(lua.GlobalsIndex).(*lua.LTable)
 	for key, val := range tbl {
@@ -475,6 +483,9 @@ func (s *Server) cmdEvalUnified(scriptIsSha bool, msg *Message) (res resp.Value,
 			"DEADLINE": luaDeadline,
 			"EVAL_CMD": lua.LString(msg.Command()),
 		})
+
+	luaState.Get(lua.RegistryIndex).(*lua.LTable).RawSetString(
+		luaEvalCmdRegistryKey, lua.LString(msg.Command()))
 
 	compiled, ok := s.luascripts.Get(shaSum)
 	var fn *lua.LFunction
